@@ -240,6 +240,20 @@ def run(ctx):
         raise D.Inconclusive("repeat judge returned %d verdicts for %d programs" % (len(rverdicts), len(mobs)))
     for o in mobs:
         by_id["repeat/" + o["id"]] = {"src": o["src"], "out": o["out"], "mut": o["mut"]}
+    # rebinding: hand-shaped programs `%v op literal` (both orders, inside where() and select()) compiled once and evaluated
+    # with %v bound to a value of one kind, then of another kind (another unit, a number where a Quantity was, another
+    # precision or type), then the first again (harness/cmd/c04/rebind.go); judged by the same C04_RepeatJudge
+    D.run_harness(ctx, binary, ["rebind", "-", ctx.path("rebind_obs.ndjson")])
+    robs = D.read_ndjson(ctx.path("rebind_obs.ndjson"))
+    if len(robs) < 1000:
+        raise D.Inconclusive("rebind stage produced only %d records" % len(robs))
+    bverdicts = D.judge(ctx, "C04_RepeatJudge", "C04_repeatjudge.cfg", ctx.path("rebind_obs.ndjson"), tag="judge-rebind")
+    if len(bverdicts) != len(robs):
+        raise D.Inconclusive("repeat judge returned %d verdicts for %d rebinding programs" % (len(bverdicts), len(robs)))
+    for o in robs:
+        by_id[o["id"]] = {"src": o["src"], "out": o["out"], "mut": o["mut"]}
+    rverdicts = rverdicts + bverdicts
+    ctx.extra["rebinding_programs"] = len(robs)
     allv = allv + rverdicts
     ctx.extra["machine_programs_repeated"] = len(mobs)
     # node-level trace validation (spec/FPNodeTrace.tla): every node of one evaluation sees the same instant
